@@ -138,14 +138,14 @@ def neg (p : MPoly α) : MPoly α := mk (p.map (fun kv => (kv.1, -kv.2)))
 /-- `PolyMeta.__unary__` with `operator.pos` -/
 def pos (p : MPoly α) : MPoly α := mk p
 
-/-- `Poly.__add__`: `OrderedDict(chain(self, other, intersect))`, then compaction.
-    (`intersect` runs over a Python `set`; its order is irrelevant because those keys
-    already have their position from `self`.) -/
-def add (p q : MPoly α) : MPoly α :=
-  let inter := p.filterMap (fun kv => match find? q kv.1 with
-    | some w => some (kv.1, kv.2 + w)
-    | none => none)
-  mk (p ++ q ++ inter)
+/-- `intersect = [(key, self._data[key] + other._data[key]) for key in set(self).intersection(other)]`
+    (the comprehension runs over a Python `set`; its order is irrelevant because those keys
+    already have their position from `self`) -/
+def inter (p q : MPoly α) : List (Int × α) :=
+  p.filterMap (fun kv => (find? q kv.1).map (fun w => (kv.1, kv.2 + w)))
+
+/-- `Poly.__add__`: `OrderedDict(chain(self, other, intersect))`, then compaction. -/
+def add (p q : MPoly α) : MPoly α := mk (p ++ q ++ inter p q)
 
 /-- `Poly.__sub__` : `self + (-other)` -/
 def sub (p q : MPoly α) : MPoly α := add p (neg q)
@@ -267,10 +267,15 @@ def hashKey (p : MPoly α) : MPoly α := sortAsc p
 
 /-! ### Lagrange interpolation -/
 
-/-- `reduce(operator.mul, args)` — no initial value: TypeError on an empty sequence -/
-def prodNoInit {β : Type} (mulB : β → β → β) : List β → Except PyErr β
-  | [] => .error .type
-  | a :: t => .ok (t.foldl mulB a)
+/-- `reduce(operator.mul, args)` — no initial value: TypeError on an empty sequence;
+    with `init = some one` it is `reduce(operator.mul, args, 1)` (the repair proposed for D14). -/
+def prodReduce {β : Type} (mulB : β → β → β) (init : Option β) : List β → Except PyErr β
+  | [] => match init with
+    | some i => .ok i
+    | none => .error .type
+  | a :: t => match init with
+    | some i => .ok ((a :: t).foldl mulB i)
+    | none => .ok (t.foldl mulB a)
 
 /-- The arithmetic that the lambda of `lagrange.func` applies to its argument `k`
     (duck typed in Python: a number for `lagrange.func`, the Poly `x` for `lagrange.poly`). -/
@@ -281,10 +286,13 @@ structure LagOps (α β : Type) where
   scale : α → β → β       -- yv[j] * prod
   zeroAdd : β → β         -- 0 + first term (`sum` starts with the int 0)
   add : β → β → β
+  one : β                 -- what the int `1` is once it meets a `β` (only used by the repaired variant)
 
 /-- `lagrange.func(pairs)(k)` = `sum(yv[j] * prod((k - rk) / (rj - rk) for rk in xv if rj != rk)
-     for j, rj in enumerate(xv))`; `xv, yv = zip(*pairs)` raises ValueError without pairs. -/
-def lagrangeGen {β : Type} (ops : LagOps α β) (zeroB : β) (pairs : List (α × α)) (k : β) :
+     for j, rj in enumerate(xv))`; `xv, yv = zip(*pairs)` raises ValueError without pairs.
+    `fixed = false` is the code as it stands (`prod = reduce(operator.mul, args)`),
+    `fixed = true` the proposed repair (`reduce(operator.mul, args, 1)`). -/
+def lagrangeGen {β : Type} (ops : LagOps α β) (fixed : Bool) (zeroB : β) (pairs : List (α × α)) (k : β) :
     Except PyErr β :=
   if pairs.isEmpty then .error .value
   else do
@@ -292,7 +300,7 @@ def lagrangeGen {β : Type} (ops : LagOps α β) (zeroB : β) (pairs : List (α 
     let terms ← pairs.mapM (fun (pr : α × α) => do
       let fs := (xv.filter (fun rk => !decide (pr.1 = rk))).map
         (fun rk => ops.divS (ops.subS k rk) (pr.1 - rk))
-      let pr' ← prodNoInit ops.mul fs
+      let pr' ← prodReduce ops.mul (if fixed then some ops.one else none) fs
       pure (ops.scale pr.2 pr'))
     match terms with
     | [] => pure zeroB
@@ -305,10 +313,11 @@ def numOps : LagOps α α where
   scale := fun y a => y * a
   zeroAdd := fun a => 0 + a
   add := fun a b => a + b
+  one := 1
 
 /-- `lagrange.func(pairs)(k)` for a number `k` -/
-def lagrangeFunc (pairs : List (α × α)) (k : α) : Except PyErr α :=
-  lagrangeGen numOps 0 pairs k
+def lagrangeFunc (pairs : List (α × α)) (k : α) (fixed : Bool := false) : Except PyErr α :=
+  lagrangeGen numOps fixed 0 pairs k
 
 def polyOps : LagOps α (MPoly α) where
   subS := fun k r => add k (ofScalar (-r))                 -- Poly.__sub__: self + Poly(-other)
@@ -317,10 +326,11 @@ def polyOps : LagOps α (MPoly α) where
   scale := fun y a => mul (ofScalar y) a                   -- __rmul__
   zeroAdd := fun a => add (ofScalar 0) a                   -- __radd__
   add := add
+  one := ofScalar 1
 
 /-- `lagrange.poly(pairs)` = `lagrange.func(pairs)(x)` -/
-def lagrangePoly (pairs : List (α × α)) : Except PyErr (MPoly α) :=
-  lagrangeGen polyOps [] pairs X
+def lagrangePoly (pairs : List (α × α)) (fixed : Bool := false) : Except PyErr (MPoly α) :=
+  lagrangeGen polyOps fixed [] pairs X
 
 end Arith
 end ALV.C07
